@@ -201,3 +201,44 @@ pub proof fn lemma_sum_take_last(s: Seq<Value>, i: int)
 {
     assert(s.take(i + 1).drop_last() =~= s.take(i));
 }
+
+// ===== more abstract callees =====================================================================================
+impl TransactionOutput {
+    #[verifier::external_body] pub fn new(address: &Address, amount: &Value) -> (r: TransactionOutput)
+        ensures r.address == *address, r.amount == *amount, r.plutus_data is None, r.script_ref is None { unimplemented!() }
+}
+impl TransactionBuilder {
+    #[verifier::external_body] pub fn add_regular_input(&mut self, address: &Address, input: &TransactionInput, amount: &Value) -> (r: Result<(), JsError>)
+        ensures final(self).fee_request == old(self).fee_request { unimplemented!() }
+    // the balancing routine itself (input selection + change) is NOT under contract: nothing is assumed about what it does to the builder
+    #[verifier::external_body] pub fn add_inputs_from_and_change(&mut self, inputs: &TransactionUnspentOutputs, strategy: CoinSelectionStrategyCIP2, change_config: &ChangeConfig) -> (r: Result<bool, JsError>)
+        ensures final(self).collateral == old(self).collateral, final(self).config == old(self).config { unimplemented!() }
+}
+pub enum CoinSelectionStrategyCIP2 { LargestFirst, RandomImprove, LargestFirstMultiAsset, RandomImproveMultiAsset }
+pub struct ChangeConfig { pub address: Address, pub rest: ChangeConfigRest }
+
+// ===== collateral (C19) ===============================================================================================
+/// value held by the collateral inputs
+pub open spec fn col_coin(b: TransactionBuilder) -> nat { sum_coin(in_amounts(b.collateral.items())) }
+pub open spec fn col_qty(b: TransactionBuilder, a: AssetId) -> nat { sum_qty(in_amounts(b.collateral.items()), a) }
+pub open spec fn ret_coin(b: TransactionBuilder) -> nat { match b.collateral_return { Some(o) => o.amount.coin.0 as nat, None => 0 } }
+pub open spec fn ret_qty(b: TransactionBuilder, a: AssetId) -> nat { match b.collateral_return { Some(o) => qty(o.amount, a), None => 0 } }
+/// C19: collateral inputs = collateral return + total collateral, as an equation on whole values (total is pure lovelace)
+pub open spec fn collateral_eq(b: TransactionBuilder) -> bool {
+    &&& b.total_collateral is Some
+    &&& col_coin(b) == ret_coin(b) + b.total_collateral->Some_0.0
+    &&& forall|a: AssetId| col_qty(b, a) == ret_qty(b, a)
+}
+pub open spec fn return_meets_min_ada(b: TransactionBuilder) -> bool {
+    b.collateral_return is Some ==> b.collateral_return->Some_0.amount.coin.0 >= spec_min_ada(b.collateral_return->Some_0, b.config.data_cost)
+}
+pub proof fn lemma_sum_mono(s: Seq<Value>, i: int)
+    requires 0 <= i <= s.len()
+    ensures sum_coin(s.take(i)) <= sum_coin(s), forall|a: AssetId| sum_qty(s.take(i), a) <= sum_qty(s, a)
+    decreases s.len() - i
+{
+    if i < s.len() {
+        lemma_sum_mono(s, i + 1);
+        lemma_sum_take_last(s, i);
+    } else { assert(s.take(i) =~= s); }
+}
